@@ -614,7 +614,8 @@ def _conditional_within(node, fn):
         if isinstance(p_, (ast.If, ast.For, ast.While)):
             return True
         p_ = parent(p_)
-    return False
+    # ... or reached only when an earlier guard clause did not return (`if wrapped.edited: return` in front of it)
+    return bool([1 for t, pol, origin in dominating_conditions(node, stop=fn) if not isinstance(origin, ast.Try)])
 
 
 def r07m(ctx):
